@@ -8,11 +8,13 @@ import (
 	"encoding/hex"
 	"errors"
 	"fmt"
+	"io"
 	"os"
 	"path/filepath"
 	"sort"
 	"sync"
 	"testing"
+	"time"
 
 	ocispec "github.com/opencontainers/image-spec/specs-go/v1"
 	"oras.land/oras-go/v2/content"
@@ -101,9 +103,9 @@ func genCase(kind string) func(t *rapid.T) Case {
 			}
 			if kind == "oci" && allowMut {
 				switch {
-				case r < 88:
+				case r < 86:
 					return Op{Op: "untag", N: n, Ref: rapid.SampledFrom(refNames).Draw(t, "uref")}
-				case r < 96:
+				case r < 97:
 					return Op{Op: "delete", N: n}
 				default:
 					return Op{Op: "tags", Ref: rapid.SampledFrom([]string{"", "latest", "m"}).Draw(t, "last")}
@@ -423,6 +425,28 @@ func runCase(c Case) (res vt.Result, fail *vt.Fail) {
 				return vt.Failf("C06/fetch-absent-error-class", "%s: Fetch(absent node %d): %v, want not-found", when, id, err)
 			}
 		}
+		if c.Kind == "file" {
+			// the same questions asked with the plain descriptor (no title): the
+			// file store answers those from its digest index / fallback storage
+			for _, id := range d.CanonIDs() {
+				n := d.Nodes[id]
+				if n.Spec.Title == "" {
+					continue
+				}
+				want := m.dpaths[n.Desc.Digest.String()] || m.content[m.key(n)]
+				ok, err := s.Exists(ctx, n.Desc)
+				if err != nil || ok != want {
+					return vt.Failf("C06/exists-mismatch-plain-descriptor", "%s: Exists(node %d without its title) = %v (err %v), model says %v", when, id, ok, err, want)
+				}
+				b, err := gen.ReadBack(ctx, s, n.Desc)
+				if want && (err != nil || !bytes.Equal(b, n.Bytes)) {
+					return vt.Failf("C06/fetch-mismatch-plain-descriptor", "%s: Fetch(node %d without its title): %d bytes, err %v", when, id, len(b), err)
+				}
+				if !want && err == nil {
+					return vt.Failf("C06/fetch-absent-succeeded", "%s: Fetch(node %d without its title) succeeded for absent content", when, id)
+				}
+			}
+		}
 		for _, ref := range refNames[:3] {
 			desc, err := s.Resolve(ctx, ref)
 			tv, ok := m.tags[ref]
@@ -579,6 +603,40 @@ func runCase(c Case) (res vt.Result, fail *vt.Fail) {
 	return res, nil
 }
 
+// gate lets the first Read of `need` readers proceed together (or after a timeout).
+type gate struct {
+	mu      sync.Mutex
+	need    int
+	arrived int
+	ch      chan struct{}
+	closed  bool
+}
+
+func (g *gate) wait() {
+	g.mu.Lock()
+	g.arrived++
+	if g.arrived >= g.need && !g.closed {
+		g.closed = true
+		close(g.ch)
+	}
+	g.mu.Unlock()
+	select {
+	case <-g.ch:
+	case <-time.After(20 * time.Millisecond):
+	}
+}
+
+type gateReader struct {
+	r    io.Reader
+	g    *gate
+	once sync.Once
+}
+
+func (r *gateReader) Read(p []byte) (int, error) {
+	r.once.Do(r.g.wait)
+	return r.r.Read(p)
+}
+
 // runConcurrent runs the per-goroutine lists at once. The operations generated for
 // this phase (push of good content, tag, fetch, exists, resolve) commute except for
 // tags on the same reference, so the set of sequentially reachable final states is:
@@ -593,6 +651,25 @@ func runConcurrent(ctx context.Context, c *Case, d *gen.DAG, s store, m *tmodel,
 		desc ocispec.Descriptor
 	}
 	results := make([][]result, len(c.Conc))
+	// pushes of the same node from several goroutines rendezvous inside their first
+	// Read, i.e. after each store has done its "already exists?" pre-check
+	pushers := map[int]int{}
+	for _, l := range c.Conc {
+		seen := map[int]bool{}
+		for _, op := range l {
+			id := d.Nodes[op.N].Canon
+			if op.Op == "push" && !seen[id] {
+				seen[id] = true
+				pushers[id]++
+			}
+		}
+	}
+	gates := map[int]*gate{}
+	for id, k := range pushers {
+		if k >= 2 {
+			gates[id] = &gate{need: k, ch: make(chan struct{})}
+		}
+	}
 	var wg sync.WaitGroup
 	for g, l := range c.Conc {
 		results[g] = make([]result, len(l))
@@ -603,7 +680,11 @@ func runConcurrent(ctx context.Context, c *Case, d *gen.DAG, s store, m *tmodel,
 				n := d.Nodes[d.Nodes[op.N].Canon]
 				switch op.Op {
 				case "push":
-					results[g][i].err = s.Push(ctx, n.PushDesc(), bytes.NewReader(n.Bytes))
+					var rd io.Reader = bytes.NewReader(n.Bytes)
+					if gt := gates[n.ID]; gt != nil {
+						rd = &gateReader{r: rd, g: gt}
+					}
+					results[g][i].err = s.Push(ctx, n.PushDesc(), rd)
 				case "fetch":
 					b, err := gen.ReadBack(ctx, s, n.PushDesc())
 					results[g][i] = result{err: err, data: b}
@@ -662,6 +743,11 @@ func runConcurrent(ctx context.Context, c *Case, d *gen.DAG, s store, m *tmodel,
 			if pushNil[id] == 0 {
 				return vt.Failf("C06/concurrent-push-lost", "node %d was pushed by %d concurrent calls, none returned nil", id, len(c.Conc))
 			}
+		}
+		if want == nil && !before && pushNil[id] > 1 && c.Kind != "oci" && !(c.Kind == "file" && c.IgnoreNoName) {
+			// no sequential order lets two pushes of the same content both succeed
+			// (the OCI layout is exempt: its rename-into-place admits both)
+			return vt.Failf("C06/concurrent-duplicate-push-accepted-twice", "node %d: %d concurrent pushes of the same content returned nil", id, pushNil[id])
 		}
 		if want != nil && pushNil[id] > 0 && !(c.Kind == "file" && c.IgnoreNoName) {
 			return vt.Failf("C06/concurrent-push-accepted", "push of node %d returned nil although the model refuses it with %v", id, want)
@@ -732,7 +818,7 @@ func keys(m map[string]bool) []string {
 func TestMain(m *testing.M) {
 	vt.Main(m, "C06",
 		vt.NewLeg("memory", 1500, 6000, 4, genCase("memory"), runCase),
-		vt.NewLeg("oci", 500, 2500, 8, genCase("oci"), runCase),
+		vt.NewLeg("oci", 2000, 4000, 8, genCase("oci"), runCase),
 		vt.NewLeg("file", 700, 3000, 4, genCase("file"), runCase),
 	)
 }
